@@ -12,6 +12,27 @@ import re
 import vlib
 
 ROWS = 4  # rows per batch written by the driver
+WORKERS = 6
+
+_seq_run_lines = vlib.run_lines
+
+
+def _par_run_lines(exe, lines, timeout=3600, env=None, cwd=None, args=()):
+    """the Go driver does real file I/O (fsync per flushed part): shard the cases over a few driver processes"""
+    if len(lines) < 64 or not exe.endswith("bin/drv_c05") or "/.lake/" in exe:
+        return _seq_run_lines(exe, lines, timeout=timeout, env=env, cwd=cwd, args=args)
+    from concurrent.futures import ThreadPoolExecutor
+    n = WORKERS
+    chunks = [lines[i::n] for i in range(n)]
+    with ThreadPoolExecutor(n) as ex:
+        outs = list(ex.map(lambda ch: _seq_run_lines(exe, ch, timeout=timeout, env=env, cwd=cwd, args=args), chunks))
+    res = [None] * len(lines)
+    for i in range(n):
+        res[i::n] = outs[i]
+    return res
+
+
+vlib.run_lines = _par_run_lines
 
 
 # ----------------------------------------------------------------------------------------
@@ -30,7 +51,7 @@ def gen_ms(rng, maxlen=None):
     for i in range(n):
         r = rng.random()
         if closed and r < 0.7:
-            r = 0.45 + rng.random() * 0.2     # mostly acquire/release after close
+            r = 0.30 + rng.random() * 0.28    # mostly acquire/release after close
         if r < 0.30 or (not has_snap and r < 0.6 and not closed):
             toks.append("b")
             if not closed:
@@ -394,11 +415,11 @@ class C05(vlib.Spec):
     lean_modules = ["Banyan.Props.C05", "Banyan.Tie.C05"]
     theorems = ["Banyan.C05." + t for t in [
         "inv_init", "inv_step", "inv_reachable", "part_ref_eq_listing_snapshots", "snap_ref_eq_current_plus_holders",
-        "refs_nonneg", "deleted_imp_unreferenced_removable", "listed_not_deleted",
-        "reader_view_stable", "reader_view_stable_reachable", "view_nodup", "curView_step",
+        "refs_nonneg", "deleted_imp_unreferenced_removable", "listed_not_deleted", "applyLoop_eq_applyAll",
+        "reader_view_stable", "reader_view_stable_reachable", "batchInv_reachable", "view_nodup", "curView_step",
         "delete_exactly_once_after_last_reader", "delCount_mono", "delete_at_most_once_ever",
         "txn_commit_idempotent", "txn_rollback_idempotent", "txn_commit_after_rollback_noop",
-        "txn_acct_reachable", "txn_commit_applies_all", "txn_rollback_applies_none", "txn_balanced_after_release",
+        "txn_acct_newTransition", "txn_commit_applies_all", "txn_balanced_after_release", "txn_rollback_applies_none",
         "pub_fenced_reader_consistent", "pub_unfenced_core_monotone", "pub_unfenced_counterexample"]] + [
         "Banyan.Tie.C05." + t for t in [
             "currentSnapshot_incref_under_rlock", "replaceSnapshot_under_lock", "snapshot_decref_shape",
@@ -406,7 +427,7 @@ class C05(vlib.Spec):
             "trace_commit_under_fence", "txn_shape"]]
     go_driver = "c05"
     lean_driver = "C05"
-    counts = {"quick": 1500, "thorough": 60000}
+    counts = {"quick": 1200, "thorough": 12000}
     trusted_base = [
         "Lean 4.33.0 kernel",
         "op-level atomicity: each modelled op is one Go call running under tsTable.RWMutex / inside the single introducer "
